@@ -298,3 +298,42 @@ func clRestoreItemSize(c *Ctx) {
 	}
 	c.Check(ok, isf, nil, "the instance's item store uses the same item size function", "insert-side and unlink-side accounting use different item sizes")
 }
+
+// StoreToDisk is handed the snapshot and owns its release: on every exit the
+// snapshot has been closed or a deferred close is pending (C06/C08: a handle
+// kept by an early error return pins every later garbage list for ever).
+func clBackupOwnsSnapshot(c *Ctx) {
+	p := c.P
+	fn := p.Func("nitro", "Nitro", "StoreToDisk")
+	fi := p.Info(fn)
+	snapClose := p.Func("nitro", "Snapshot", "Close")
+	releases := func(in ssa.Instruction) bool {
+		if callOf(in) == nil {
+			return false
+		}
+		for _, cal := range p.Callees(in) {
+			if cal == snapClose {
+				return true
+			}
+			if _, isDefer := in.(*ssa.Defer); isDefer && cal.Parent() == fn && len(p.CallSites(cal, snapClose)) > 0 {
+				return true
+			}
+		}
+		return false
+	}
+	n := 0
+	for _, in := range fi.Instrs {
+		if releases(in) {
+			n++
+		}
+	}
+	if n == 0 {
+		undecidedf("StoreToDisk: no release of the backup snapshot found")
+	}
+	w := fi.PathAvoiding(nil, func(x ssa.Instruction) bool {
+		r, ok := x.(*ssa.Return)
+		return ok && r.Block() != fn.Recover
+	}, releases)
+	c.Check(w == nil, fn, w, "every exit of StoreToDisk has released the snapshot it was handed (directly or by a pending defer)",
+		"an early error return (shutdown, file open, init handshake) leaves the caller's snapshot reference open: the collector never passes that snapshot, so every version deleted afterwards stays in memory for ever")
+}
